@@ -208,12 +208,19 @@ class LedgerOracle(Oracle):
         if self.dead:
             return
         acts = sim.actuator.actions
-        for a in acts[self.n_actions:]:
-            if type(a).__name__ == "LiquidationAction":
-                sim.count("probe:liquidated_run_truncated")
-                self.dead = True
+        if any(type(a).__name__ == "LiquidationAction" for a in acts[self.n_actions:]):
+            # what a liquidation takes is C12's subject: the ledger adopts the positions it left as fresh lots at this bar's
+            # indices and goes on checking accrual and stated amounts from there (twin runs are compared up to this bar only)
+            sim.count("probe:ledger_rebased_after_liquidation")
+            if self.stop_bar is None:
                 self.stop_bar = self._bar(sim)
-                return
+            b = self._bar(sim)
+            rs, rb = self._real()
+            self.sup, self.debt = RA.Ledger(), RA.Ledger()
+            for t, amt in rs.items():
+                self.sup.add(t, amt, self.ref.Is(t, b))
+            for t, amt in rb.items():
+                self.debt.add(t, amt, self.ref.Ib(t, b))
         self.n_actions = len(acts)
         if pos == "begin" and phase in ("before_bar", "after_bar"):
             self._compare(sim, f"bar:{phase}")
@@ -510,7 +517,7 @@ ASSUMPTIONS = [
     "a residue whose scaled amount is below 1e-18 (token amount below 1e-18 x index) may either vanish or stay: the clamp of sub_base_amount is part of the property",
     "wallet deltas are compared to 1e-24: wallet arithmetic is Decimal with 35 significant digits and balances stay below 1e10",
     "a wallet debit within 0.001% of the whole balance is not checked (Asset.sub documents that it then takes the whole balance)",
-    "when a liquidation occurs the ledger stops at that bar (liquidation amounts are C12's subject)",
+    "what a liquidation takes is C12's subject: when one occurs the ledger adopts the positions it left (as fresh lots at that bar's indices) and continues; twin runs are compared up to that bar",
     "twin runs are compared only on bars where every request of run X and all of its pieces in run Y had the same outcome and no cross-bar split is in flight; with a cross-bar split wallets are not compared (the compensated pieces differ by design)",
     "borrow(None) takes the amount stated on the recorded action as the stated amount",
 ]
